@@ -674,13 +674,19 @@ class Sim(FAM.FamilyMixin):
         got = self.call(h.real.__getitem__, maskobj if maskobj is not None else self.make_mask(bits))
         if len(bits) != n:
             self.inc("fault.bad_length")
-        bad = h.masked or len(bits) != n
+        bad = len(bits) != n
+        if h.masked and not bad and got[0] == "exc":
+            # documented refusal (no masked reference of a masked reference). The property does not demand it: should the
+            # library accept the call, the result must select like a list does (it joins the live handles below)
+            self.inc("outcome.raised")
+            self.h.update(b"exc")
+            return
         self.expect(got, bad, "a[mask] (mask length %d, array length %d, already masked %s)" % (len(bits), n, h.masked))
         if bad:
             return
         pos = [k for k in range(n) if bits[k]]
         nh = Handle(got[1], "arr", h.tname, h.store, [h.idx[k] for k in pos], h.writable, True, h.comp)
-        nh.ulen, nh.upos = n, pos
+        nh.ulen, nh.upos = (n, pos) if not h.masked else (None, None)
         self.add(nh)
 
     def sel_indices(self, h, idx):
@@ -824,12 +830,17 @@ class Sim(FAM.FamilyMixin):
         else:
             data = self.make_array(h.tname, vals)
         got = self.call(h.real.__setitem__, self.make_mask(bits), data)
-        # documented refusal: masked references do not support mask assignment of arrays
-        bad = not h.writable or len(bits) != n or h.masked or (ln != n and ln != cnt)
+        bad = not h.writable or len(bits) != n or (ln != n and ln != cnt)
         if not h.writable:
             self.inc("fault.write_via_readonly")
         if len(bits) != n or form == "bad":
             self.inc("fault.bad_length")
+        if h.masked and not bad and got[0] == "exc":
+            # documented refusal ("We don't support setting item masks for masked reference arrays"): nothing changes.
+            # The property does not demand the refusal: should the library accept the call, list semantics apply (below)
+            self.inc("outcome.raised")
+            self.h.update(b"exc")
+            return
         self.expect(got, bad, "a[mask] = array of %d (mask length %d, selected %d, array length %d, masked %s, writable %s)" % (ln, len(bits), cnt, n, h.masked, h.writable))
         if not bad:
             if ln == n:
